@@ -123,13 +123,16 @@ JYaw(ev) == LET q == Arg(ev, 1) o == DSeqW(ev.ocs) IN UnitOr(ev, q, VB(YawOK(ev,
 JRoll(ev) == LET q == Arg(ev, 1) o == DSeqW(ev.ocs) IN UnitOr(ev, q, VB(RollOK(ev, q, o[1], o[2])))
 \* quat(eulerAngles(q)) describes the rotation of q: matrices agree within 64 eps; near gimbal lock (cos(yaw) -> 0) the three angles are
 \* conditioned like eps / cos(yaw): accepted up to 8 sqrt(eps) under the bound e cos(yaw) <= 16 eps; beyond 8 sqrt(eps) but inside that
-\* bound is the known loss of GLM's eulerAngles just outside its atan2(0,0) guard
+\* bound is the known loss of GLM's eulerAngles just outside its atan2(0,0) guard (surely inside the guard, the documented
+\* fallback pitch = 2 atan2(x, w), roll = 0 must itself be within 8 sqrt(eps))
 JEulerRt(ev) == LET q == Arg(ev, 1) r == Res(ev) mq == DqToMat3(q) mr == DqToMat3(r) cy2 == DCosYaw2(q)
-                    model == DSqDiffLe(mr, mq, cy2, DMulInt(DSq(EpsD(ev)), 256)) IN
+                    model == DSqDiffLe(mr, mq, cy2, DMulInt(DSq(EpsD(ev)), 256))
+                    g4 == DMul2k(EpsD(ev), -2)                                  \* surely inside the guard: the four atan2 arguments are <= eps / 4
+                    guard == DLe(DAbs(DRollX(q)), g4) /\ DLe(DAbs(DRollY(q)), g4) /\ DLe(DAbs(DPitchX(q)), g4) /\ DLe(DAbs(DPitchY(q)), g4) IN
     UnitOr(ev, q,
         IF DMaxDiffLe(mr, mq, Tol(ev, 64)) THEN VOk
         ELSE IF model /\ DSqDiffLe(mr, mq, DOne, Tol(ev, 64)) THEN VOk
-        ELSE IF model THEN VKnown("KD-C04-euler-roundtrip-near-gimbal")
+        ELSE IF model /\ ~guard THEN VKnown("KD-C04-euler-roundtrip-near-gimbal")
         ELSE VBad)
 JCtorEuler(ev) == LET h == Hcs(ev) IN
     IF ~TriplesOK(h) THEN VBad ELSE VB(DMaxDiffLeS(Res(ev), DEulerQuats(h[1], h[2], h[3]), Tol(ev, 8), DenProd(h)))
